@@ -32,8 +32,8 @@ type c16Commit struct {
 	P2   int32
 }
 
-var c16Groups = []string{"g", "a", "a:b", "a/offsets/b", "g é"}
-var c16Topics = []string{"t", "c", "b:c", "b/offsets/c", "t/0"}
+var c16Groups = []string{"g", "a", "a:b", "a/offsets/b", "g é", "a/"}
+var c16Topics = []string{"t", "c", "b:c", "b/offsets/c", "t/0", "./c"}
 var c16Parts = []int32{0, 1, 10}
 
 type c16Val struct {
